@@ -30,9 +30,9 @@ func (l *filterRuleList) addRule(fr *filterRule) error {
 }
 
 // exclude.c:check_filter
-func (l *filterRuleList) matches(name string) bool {
+func (l *filterRuleList) matches(name string, isDir bool) bool {
 	for _, fr := range l.Filters {
-		if fr.matches(name) {
+		if fr.matches(name, isDir) {
 			// The first matching rule decides: include rules keep the
 			// entry, exclude rules leave it out.
 			return fr.flag&filtruleInclude == 0
@@ -81,7 +81,10 @@ type filterRule struct {
 }
 
 // exclude.c:rule_matches
-func (fr *filterRule) matches(name string) bool {
+func (fr *filterRule) matches(name string, isDir bool) bool {
+	if fr.flag&filtruleDirectory != 0 && !isDir {
+		return false // a trailing slash restricts the rule to directories
+	}
 	// Rules with wildcards are rejected by addRule.
 	if !strings.ContainsRune(fr.pattern, '/') {
 		name = filepath.Base(name)
@@ -103,8 +106,7 @@ func parseFilter(line string) (*filterRule, error) {
 		rule.flag |= filtruleInclude
 		line = strings.TrimPrefix(line, "+ ")
 	} else if strings.HasPrefix(line, "!") {
-		// set clear_list flag
-		rule.flag |= filtruleClearList
+		return nil, fmt.Errorf("filter rule %q: clearing the rule list is not yet implemented", line)
 	}
 
 	rule.pattern = line
